@@ -915,13 +915,13 @@ class UfoMasters(Unit):
     name = "ufo-masters"
     rule = ("glyphs_to_quadratic on two-master glyphs 'cubic a, line, cubic b, line' / 'cubic b, line, cubic a, line' for every ordered pair (a,b) of the 27-curve subset (thorough: 81-curve "
             "sub-lattice) x max_err in {scalar from the tolerance set, per-master list} x reverse_direction x all_quadratic, closed and open, plus (for a+b even) the contour 'quadratic, cubic a|b, line' that mixes curve types with no line between them; fonts_to_quadratic on two duck-typed fonts of 9 such glyphs "
-            "(+ one glyph missing from a master, one empty glyph) with max_err_em / max_err / per-font lists: every master's segments keep their on-curve points, each cubic becomes one segment "
+            "(+ one glyph missing from the last master, one missing from the first, one empty glyph) with max_err_em / max_err / per-font lists: every master's segments keep their on-curve points, each cubic becomes one segment "
             "within its master's tolerance, corresponding segments have the same kind and point count in both masters, return value / lib key as documented; incompatible masters raise; "
             "distinct = each (pair,options)")
     chunk = 2
     required_witnesses = ("glyphs_to_quadratic", "fonts_to_quadratic", "reverse_direction", "per-master tolerances", "result: cubic kept (all_quadratic=False)",
                           "result: spline of >= 10 segments", "masters forced to a common segment count", "incompatible masters rejected", "open contour", "empty master skipped",
-                          "quadratic segment directly before a cubic one")
+                          "quadratic segment directly before a cubic one", "glyph missing from the first font")
 
     def cases(self, tier, seed):
         yield ["incompatible"]
@@ -1022,7 +1022,7 @@ class UfoMasters(Unit):
         else:
             a = case[1]
             blk = [(a + 9 * j) % 81 for j in range(9)]
-            for opt in ("em", "em-list", "abs", "abs-list"):
+            for opt in ("em", "em-list", "abs", "abs-list", "abs-list-rev"):
                 for rev in (False, True):
                     for aq in (True, False):
                         n += 1
@@ -1035,6 +1035,8 @@ class UfoMasters(Unit):
                             fonts[0][nm] = make_glyph(nm, [S[a], S[b]])
                             fonts[1][nm] = make_glyph(nm, [S[b], S[a]])
                         fonts[0]["only0"] = make_glyph("only0", [S[a]])
+                        # a glyph that the FIRST font lacks: its tolerance is the second font's
+                        fonts[1]["only1"] = make_glyph("only1", [S[a]])
                         fonts[0]["empty"] = DuckGlyph("empty")
                         fonts[1]["empty"] = DuckGlyph("empty")
                         kw, tols = {
@@ -1042,8 +1044,9 @@ class UfoMasters(Unit):
                             "em-list": ({"max_err_em": [0.00025, 0.01]}, [0.5, 10.0]),
                             "abs": ({"max_err": 0.5}, [0.5, 0.5]),
                             "abs-list": ({"max_err": [0.001, 10]}, [0.001, 10]),
+                            "abs-list-rev": ({"max_err": [10, 0.001]}, [10, 0.001]),
                         }[opt]
-                        ins = {nm: [OP.contours_from_pointpen(f[nm].rec.value) for f in fonts if nm in f] for nm in names + ["only0", "empty"]}
+                        ins = {nm: [OP.contours_from_pointpen(f[nm].rec.value) for f in fonts if nm in f] for nm in names + ["only0", "only1", "empty"]}
                         before = {nm: [list(f[nm].rec.value) for f in fonts if nm in f] for nm in ins}
                         modified = _ufo.fonts_to_quadratic(fonts, reverse_direction=rev, all_quadratic=aq, **kw)
                         rec.witness("fonts_to_quadratic")
@@ -1056,9 +1059,11 @@ class UfoMasters(Unit):
                                 V(rec, "fonts_to_quadratic:lib-key", "curve type key is %r, expected %r" % (f.lib.get(_ufo.CURVE_TYPE_LIB_KEY), want), ctx=ctx)
                         if "empty" in modified:
                             V(rec, "fonts_to_quadratic:empty-modified", "empty glyph reported modified", ctx=ctx)
-                        for nm in names + ["only0"]:
+                        for nm in names + ["only0", "only1"]:
                             gl = [f[nm] for f in fonts if nm in f]
-                            t = tols if len(gl) == 2 else tols[:1]
+                            t = tols if len(gl) == 2 else (tols[:1] if nm == "only0" else tols[1:])
+                            if nm == "only1":
+                                rec.witness("glyph missing from the first font")
                             self.judge(rec, "fonts_to_quadratic", gl, ins[nm], before[nm], nm in modified, rev, t, aq, ctx + [nm])
                         # second call: documented to skip fonts already marked converted
                         again = _ufo.fonts_to_quadratic(fonts, reverse_direction=rev, all_quadratic=aq, **kw)
